@@ -1,4 +1,4 @@
-//! C15 executor: applications assembled from a catalogue of typed handlers (fn items) under plain / JWT / BasicAuth / Tag fangs at any
+//! C15 executor: applications assembled from a catalogue of 26 typed handlers (every IntoHandler shape) (fn items) under plain / JWT / BasicAuth / Tag fangs at any
 //! level; returns the generated OpenAPI document, and for every documented operation the outcome of a request built from it.
 //! App  = {"fangs": [Fang], "items": [Item]}      Fang = {"k": "plain" | "jwt" | "basic" | "tag", "id": int}
 //! Item = {"route": "/a/:x", "methods": {"GET": handler id, ..}, "local": [Fang]} | {"mount": "/api/:v", "app": App}
@@ -21,6 +21,8 @@ fn leak(s: &str) -> &'static str { Box::leak(s.to_string().into_boxed_str()) }
 #[derive(Deserialize, Schema)] struct QueryA { q: String, page: Option<u32> }
 #[derive(Deserialize, Schema)] #[openapi(component)] struct QueryB { tag: String }
 #[derive(Deserialize, Schema)] struct QueryC { name: String, age: u8, nick: Option<String>, zone: String, #[serde(default)] limit: u32 }
+#[derive(Deserialize, Schema)] struct QueryD { d: String }
+#[derive(Deserialize, Schema)] struct QueryE { e: u8, f: Option<String> }
 #[derive(Deserialize, Schema)] #[openapi(component)] struct BodyJ { name: String, age: u8 }
 #[derive(Deserialize, Schema)] struct BodyU { a: String, #[serde(default)] b: Option<i32> }
 #[derive(Deserialize, Schema)] struct BodyM { title: String }
@@ -50,6 +52,20 @@ async fn h9() -> Response { ran(9); Response::OK() }
 async fn h10(b: Option<JSON<BodyJ>>) -> Status { ran(10); let _ = b.map(|JSON(b)| (b.name, b.age)); Status::Accepted }
 async fn h12(Query(q): Query<QueryC>) -> String { ran(12); let _ = (q.age, q.nick, q.zone, q.limit); q.name }
 async fn h11((id,): (i64,)) -> Result<String, status::NotFound<String>> { ran(11); if id < 0 { Err(status::NotFound("no".into())) } else { Ok("yes".into()) } }
+// every remaining IntoHandler shape: (no param | P | (P1,) | (P1, P2)) x 1-4 extractors, each extractor of a handler documented differently
+async fn h13(Query(q): Query<QueryA>, JSON(b): JSON<BodyJ>) -> String { ran(13); let _ = (q.q, q.page, b.name, b.age); String::new() }
+async fn h14(Query(q): Query<QueryB>, Query(d): Query<QueryD>, URLEncoded(b): URLEncoded<BodyU>) -> status::NoContent { ran(14); let _ = (q.tag, d.d, b.a, b.b); status::NoContent }
+async fn h15(Query(q): Query<QueryB>, Query(d): Query<QueryD>, Query(e): Query<QueryE>, JSON(b): JSON<BodyJ>) -> JSON<Out> { ran(15); let _ = (q.tag, d.d, e.e, e.f, b.name); JSON(out(15)) }
+async fn h16(id: u32, Query(d): Query<QueryD>, Query(e): Query<QueryE>, JSON(b): JSON<BodyJ>) -> status::Created<JSON<Out>> { ran(16); let _ = (d.d, e.e, e.f, b.name); status::Created(JSON(out(id as u64))) }
+async fn h17(id: String, Query(q): Query<QueryB>, Query(d): Query<QueryD>, Query(e): Query<QueryE>, Multipart(b): Multipart<BodyM>) -> String { ran(17); let _ = (id, q.tag, d.d, e.e, e.f); b.title }
+async fn h18((id,): (u8,), Query(d): Query<QueryD>) -> String { ran(18); let _ = id; d.d }
+async fn h19((id,): (String,), JSON(b): JSON<BodyJ>, Query(e): Query<QueryE>) -> Result<String, MyErr> { ran(19); let _ = (id, b.name, e.e, e.f); Ok(String::new()) }
+async fn h20((id,): (u64,), Query(d): Query<QueryD>, JSON(b): JSON<BodyJ>, Query(e): Query<QueryE>) -> JSON<Out> { ran(20); let _ = (d.d, b.name, e.e, e.f); JSON(out(id)) }
+async fn h21((id,): (String,), Query(q): Query<QueryB>, Query(d): Query<QueryD>, Query(e): Query<QueryE>, URLEncoded(b): URLEncoded<BodyU>) -> status::NoContent { ran(21); let _ = (id, q.tag, d.d, e.e, e.f, b.a, b.b); status::NoContent }
+async fn h22((a, b): (u16, String), JSON(j): JSON<BodyJ>) -> status::Created<JSON<Out>> { ran(22); let _ = (b, j.name); status::Created(JSON(out(a as u64))) }
+async fn h23((a, b): (String, String), Query(d): Query<QueryD>, JSON(j): JSON<BodyJ>) -> String { ran(23); let _ = (a, b, j.name); d.d }
+async fn h24((a, b): (u32, u32), Query(d): Query<QueryD>, Query(e): Query<QueryE>, JSON(j): JSON<BodyJ>) -> JSON<Out> { ran(24); let _ = (b, d.d, e.e, e.f, j.name); JSON(out(a as u64)) }
+async fn h25((a, b): (String, u8), Query(q): Query<QueryB>, Query(d): Query<QueryD>, JSON(j): JSON<BodyJ>, Query(e): Query<QueryE>) -> Result<JSON<Out>, MyErr> { ran(25); let _ = (a, b, q.tag, d.d, j.name, e.e, e.f); Ok(JSON(out(25))) }
 
 #[derive(Clone)]
 struct Plain(i64);
@@ -102,6 +118,7 @@ fn add_handler(hs: Option<HS>, route: &'static str, m: &str, local: &[Value], k:
         3 => add_with_local!(hs, route, m, local, h3), 4 => add_with_local!(hs, route, m, local, h4), 5 => add_with_local!(hs, route, m, local, h5),
         6 => add_with_local!(hs, route, m, local, h6), 7 => add_with_local!(hs, route, m, local, h7), 8 => add_with_local!(hs, route, m, local, h8),
         9 => add_with_local!(hs, route, m, local, h9), 10 => add_with_local!(hs, route, m, local, h10), 11 => add_with_local!(hs, route, m, local, h11), 12 => add_with_local!(hs, route, m, local, h12),
+        13 => add_with_local!(hs, route, m, local, h13), 14 => add_with_local!(hs, route, m, local, h14), 15 => add_with_local!(hs, route, m, local, h15), 16 => add_with_local!(hs, route, m, local, h16), 17 => add_with_local!(hs, route, m, local, h17), 18 => add_with_local!(hs, route, m, local, h18), 19 => add_with_local!(hs, route, m, local, h19), 20 => add_with_local!(hs, route, m, local, h20), 21 => add_with_local!(hs, route, m, local, h21), 22 => add_with_local!(hs, route, m, local, h22), 23 => add_with_local!(hs, route, m, local, h23), 24 => add_with_local!(hs, route, m, local, h24), 25 => add_with_local!(hs, route, m, local, h25),
         k => panic!("harness: handler {k}"),
     }
 }
